@@ -101,7 +101,20 @@ def acceptance(cfg):
         )
         if forbidden and got:
             viol.append({"key": f"c17.accept.{s}->{t}", "what": "cast outside the documented table accepted", "payload": {}})
-    return viol, n, {"acceptance_pairs_checked": n, "acceptance_samples": samples}
+    # the z3 calendar / temporal text of the kernel against Python's datetime (Serval-style
+    # validation of the encoding that the temporal templates rely on)
+    import importlib.util
+    import os
+
+    spec = importlib.util.spec_from_file_location("selftest_calendar", os.path.join(os.path.dirname(__file__), "..", "..", "tools", "selftest_calendar.py"))
+    mod = importlib.util.module_from_spec(spec)
+    spec.loader.exec_module(mod)
+    try:
+        cal = mod.main(600 if cfg.tier == "quick" else 6000, cfg.seed)
+    except AssertionError as e:
+        cal = 0
+        viol.append({"key": "c17.calendar-encoding", "what": f"harness: z3 calendar disagrees with datetime: {e}", "payload": {}})
+    return viol, n, {"acceptance_pairs_checked": n, "acceptance_samples": samples, "calendar_encoding_instants_validated": cal}
 
 
 def run(tier, seed):
